@@ -8,7 +8,10 @@ use crate::{
     info_source::InfoSource, info_timestamp::InfoTimestamp, nack_frag::NackFrag,
     submessage_flag::*,
   },
-  structure::guid::EntityId,
+  structure::{
+    guid::EntityId,
+    sequence_number::{FragmentNumber, SequenceNumber},
+  },
 };
 #[cfg(feature = "security")]
 use super::{
@@ -27,6 +30,22 @@ pub enum WriterSubmessage {
   Heartbeat(Heartbeat, BitFlags<HEARTBEAT_Flags>),
   #[allow(dead_code)] // Functionality not yet implemented
   HeartbeatFrag(HeartbeatFrag, BitFlags<HEARTBEATFRAG_Flags>),
+}
+
+impl WriterSubmessage {
+  /// Are all sequence and fragment numbers carried by this submessage small enough
+  /// that arithmetic on them cannot overflow? See SequenceNumber::MAX_ACCEPTED.
+  pub fn numbers_in_accepted_range(&self) -> bool {
+    let sn_ok = |sn: SequenceNumber| sn <= SequenceNumber::MAX_ACCEPTED;
+    let fn_ok = |f: FragmentNumber| f <= FragmentNumber::MAX_ACCEPTED;
+    match self {
+      WriterSubmessage::Data(d, _) => sn_ok(d.writer_sn),
+      WriterSubmessage::DataFrag(d, _) => sn_ok(d.writer_sn) && fn_ok(d.fragment_starting_num),
+      WriterSubmessage::Gap(g, _) => sn_ok(g.gap_start) && sn_ok(g.gap_list.base()),
+      WriterSubmessage::Heartbeat(h, _) => sn_ok(h.first_sn) && sn_ok(h.last_sn),
+      WriterSubmessage::HeartbeatFrag(h, _) => sn_ok(h.writer_sn) && fn_ok(h.last_fragment_num),
+    }
+  }
 }
 
 // we must write this manually, because
@@ -49,6 +68,19 @@ impl<C: Context> Writable<C> for WriterSubmessage {
 pub enum ReaderSubmessage {
   AckNack(AckNack, BitFlags<ACKNACK_Flags>),
   NackFrag(NackFrag, BitFlags<NACKFRAG_Flags>),
+}
+
+impl ReaderSubmessage {
+  /// See WriterSubmessage::numbers_in_accepted_range
+  pub fn numbers_in_accepted_range(&self) -> bool {
+    match self {
+      ReaderSubmessage::AckNack(a, _) => a.reader_sn_state.base() <= SequenceNumber::MAX_ACCEPTED,
+      ReaderSubmessage::NackFrag(n, _) => {
+        n.writer_sn <= SequenceNumber::MAX_ACCEPTED
+          && n.fragment_number_state.base() <= FragmentNumber::MAX_ACCEPTED
+      }
+    }
+  }
 }
 
 // we must write this manually, because
